@@ -733,7 +733,7 @@ def c13_subsets(seed, n):
     return fails, [], dict(stats, feature_sets=len(sets))
 
 # ---------------------------------------------------------------- stratified invalid requests
-def stratified(seed, n, pool=None, kinds=('struct', 'enum', 'union'), must=None, key='strat', per=30):
+def stratified(seed, n, pool=None, kinds=('struct', 'enum', 'union'), must=None, key='strat', per=14):
     """every KIND of invalid construct the generator knows, evenly: a large pool of one-invalid-construct requests is
     generated (cheap), bucketed by the generator's fault label, and up to `per` requests of every bucket are expanded.
     A request the model refuses (the model's refusals are what the theorems of C13 / C20 are about) and the real macro
